@@ -27,7 +27,8 @@ DOCTYPE = "<!DOCTYPE html>\n"
 
 def rand_dep(rng, ids, nested_dep=False):
     n = ids.next("x")[:-1]
-    d = {"k": "dep", "name": rng.choice(["da", "db", "dc", "dd"]), "version": rng.choice(["1.0", "1.9", "1.10", "2.0.1"]), "_mark": n}
+    d = {"k": "dep", "name": rng.choice(["da", "db", "dc", "dd"] if rng.random() < 0.9 else ["R&D", "a<b", "x>y", "q&amp;r"]),
+         "version": rng.choice(["1.0", "1.9", "1.10", "2.0.1"]), "_mark": n}
     if rng.random() < 0.15:
         d["sub"] = True
     if rng.random() < 0.15:
@@ -159,7 +160,9 @@ def rand_case(rng, nested=False):
         content = [gen.TAG("html", gen.TAG("body", via_fn=False), via_fn=False), gen.TAG("body", *kids, via_fn=False)]
     kw = rng.choice([[], [["lang", {"t": "str", "s": "en"}]], [["lang", {"t": "str", "s": "en"}], ["data_x", {"t": "true"}]],
                      [["class_", {"t": "str", "s": "doc"}], ["gone", {"t": "none"}]],
-                     [["class_", {"t": "str", "s": "a"}], ["class", {"t": "str", "s": "b"}]], [["data_x", {"t": "str", "s": "1"}], ["data-x", {"t": "str", "s": "2"}], ["lang", {"t": "str", "s": "de"}]]])
+                     [["class_", {"t": "str", "s": "a"}], ["class", {"t": "str", "s": "b"}]],
+                     [["title", {"t": "str", "s": "tip"}]], [["id", {"t": "str", "s": "root"}], ["title", {"t": "str", "s": "T & t"}], ["hidden", {"t": "true"}]],
+                     [["style", {"t": "str", "s": "margin:0;"}], ["dir", {"t": "str", "s": "rtl"}], ["name", {"t": "str", "s": "n"}], ["content", {"t": "str", "s": "c"}]], [["data_x", {"t": "str", "s": "1"}], ["data-x", {"t": "str", "s": "2"}], ["lang", {"t": "str", "s": "de"}]]])
     n_late = rng.choice([0, 0, 1, 2, 3]) if shape in ("fragment", "list") else 0
     if shape == "head_and_body" and rng.random() < 0.5:
         late_pair = content[1:]
@@ -173,7 +176,7 @@ def rand_case(rng, nested=False):
         content = content[: body_i + 1]
     else:
         late_sibs = []
-    return {"shape": shape, "content": content, "json_mode": rng.random() < 0.1, "late": late_pair + late_sibs + [rand_body_node(rng, ids, 1) for _ in range(n_late)], "kw": kw,
+    return {"shape": shape, "content": content, "json_mode": rng.random() < 0.1, "prior_document": rng.choice([0, 0, 0, 1, 2]), "late": late_pair + late_sibs + [rand_body_node(rng, ids, 1) for _ in range(n_late)], "kw": kw,
             "lib_prefix": rng.choice(["lib", "lib", None, "", "a/b"]), "include_version": rng.random() < 0.7, "late_together": rng.random() < 0.5}
 
 
@@ -194,7 +197,15 @@ def check_case(ctx, case):
     content = strip_marks(case["content"])
     late = strip_marks(case["late"])
     kw = {k: gen.build_attr_value(v) for k, v in case["kw"]}
-    doc = ht.HTMLDocument(*[gen.build(c) for c in content], **kw)
+    nodes = [gen.build(c) for c in content]
+    if case.get("prior_document"):
+        # the same content objects were rendered by another document (with other html attributes) before
+        prior = ht.HTMLDocument(*nodes, lang="zz", data_prior="1", class_="prior")
+        prior.render()
+        if case["prior_document"] == 2:
+            prior.render(lib_prefix="other", include_version=False)
+        ctx.count("prior_documents")
+    doc = ht.HTMLDocument(*nodes, **kw)
     if late and case.get("render_before_append", True):
         doc.render()  # an earlier rendering must not influence the one after append()
     if case.get("late_together") and late:
